@@ -290,9 +290,14 @@ fn next_bytes<'s>(
     utf8parser: &mut Utf8Parser,
 ) -> Option<&'s [u8]> {
     let offset = bytes.iter().copied().position(|b| {
-        if *state == State::Utf8 {
+        if *state == State::Utf8 && !b.is_ascii() {
             true
         } else {
+            if *state == State::Utf8 {
+                // Truncated multi-byte character, `b` stands on its own
+                utf8parser.add(b);
+                *state = State::Ground;
+            }
             let (next_state, action) = state_change(*state, b);
             if next_state != State::Anywhere {
                 *state = next_state;
@@ -307,6 +312,11 @@ fn next_bytes<'s>(
         if *state == State::Utf8 {
             if utf8parser.add(b) {
                 *state = State::Ground;
+                if b.is_ascii() {
+                    // Truncated multi-byte character, `b` stands on its own
+                    let (_, action) = state_change(*state, b);
+                    return !is_printable_bytes(action, b);
+                }
             }
             false
         } else {
